@@ -170,7 +170,11 @@ func (f *FibStrategyTree) FindStrategyEnc(name enc.Name) enc.Name {
 func (f *FibStrategyTree) InsertNextHopEnc(name enc.Name, nexthop uint64, cost uint64) {
 	f.fibStrategyRWMutex.Lock()
 	defer f.fibStrategyRWMutex.Unlock()
+	f.insertNextHop(name, nexthop, cost)
+}
 
+// insertNextHop is InsertNextHopEnc without locking (the caller holds the write lock).
+func (f *FibStrategyTree) insertNextHop(name enc.Name, nexthop uint64, cost uint64) {
 	name = name.Clone()
 	entry := f.fillTreeToPrefixEnc(name)
 	if entry.name == nil {
@@ -194,7 +198,23 @@ func (f *FibStrategyTree) InsertNextHopEnc(name enc.Name, nexthop uint64, cost u
 func (f *FibStrategyTree) ClearNextHopsEnc(name enc.Name) {
 	f.fibStrategyRWMutex.Lock()
 	defer f.fibStrategyRWMutex.Unlock()
+	f.clearNextHops(name)
+}
 
+// ReplaceNextHopsEnc replaces the nexthops of every listed prefix in one atomic step.
+func (f *FibStrategyTree) ReplaceNextHopsEnc(updates []FibNextHopsUpdate) {
+	f.fibStrategyRWMutex.Lock()
+	defer f.fibStrategyRWMutex.Unlock()
+	for _, update := range updates {
+		f.clearNextHops(update.Name)
+		for _, nexthop := range update.NextHops {
+			f.insertNextHop(update.Name, nexthop.Nexthop, nexthop.Cost)
+		}
+	}
+}
+
+// clearNextHops is ClearNextHopsEnc without locking (the caller holds the write lock).
+func (f *FibStrategyTree) clearNextHops(name enc.Name) {
 	if name == nil {
 		return // In some weird case, when RibEntry.updateNexthops() is called, the name becomes nil.
 	}
